@@ -111,21 +111,31 @@ def header(name, typ, n, ewt, fmt, style="plain"):
     return h
 
 
-def explicit_text(spec, mask):
-    """(lines, expectation) of one explicit text."""
+def prepare_text(spec):
+    """The mask-independent pieces of the texts of one family."""
     n, fmt, kind, diag, style = spec
     m = test_matrix(kind, n)
     sym = M.is_symmetric(m)
     toks = [str(v) for v in M.encode(fmt, m, diag)]
-    body = M.wrap(toks, mask, "   " if style == "spaced" else " ")
-    if style == "spaced":
+    head = header("w", "TSP" if sym else "ATSP", n, "EXPLICIT", fmt, style)
+    head.append("EDGE_WEIGHT_SECTION")
+    tail = [] if style == "no_eof" else ["EOF"]
+    return (head, toks, tail, style == "spaced",
+            {"name": "w", "n": n, "sym": sym, "matrix": m})
+
+
+def assemble_text(pre, mask):
+    head, toks, tail, spaced, _ = pre
+    body = M.wrap(toks, mask, "   " if spaced else " ")
+    if spaced:
         body = ["  " + ln + " " for ln in body]
-    lines = header("w", "TSP" if sym else "ATSP", n, "EXPLICIT", fmt, style)
-    lines.append("EDGE_WEIGHT_SECTION")
-    lines += body
-    if style != "no_eof":
-        lines.append("EOF")
-    return lines, {"name": "w", "n": n, "sym": sym, "matrix": m}
+    return head + body + tail
+
+
+def explicit_text(spec, mask):
+    """(lines, expectation) of one explicit text."""
+    pre = prepare_text(spec)
+    return assemble_text(pre, mask), pre[4]
 
 
 def case_text(rep):
@@ -176,10 +186,12 @@ def _job_text(a):
     cnt = rej = 0
     fail = None
     tol = diag != 0
+    pre = prepare_text(spec)
+    exp = pre[4]
     for mask in _masks(ntok, sel):
-        lines, exp = explicit_text(spec, mask)
-        rep = {"kind": "text", "lines": lines, "expect": exp, "via": via,
-               "tolerate_reject": tol, "what": fmt}
+        rep = {"kind": "text", "lines": assemble_text(pre, mask),
+               "expect": exp, "via": via, "tolerate_reject": tol,
+               "what": fmt}
         st, sig, msg = case_text(rep)
         cnt += 1
         if st == "rejected":
